@@ -24,7 +24,7 @@ Proof. destruct t; simpl; intuition discriminate. Qed.
 
 (* ------------------------------------------------------------------ one expression *)
 (* the compiled form of a well-shaped expression *)
-Definition compile (PA : list value -> bool) (e : fexpr) : res cexpr := condition PA (of_fexpr e).
+Definition compile (PA : parg -> bool) (e : fexpr) : res cexpr := condition PA (of_fexpr e).
 
 Lemma cell_lookup r c v : lookup c r = Some v -> cell r c = v.
 Proof. unfold cell. intros ->. reflexivity. Qed.
@@ -52,7 +52,7 @@ Proof. destruct l; simpl; congruence. Qed.
 Section One.
   Variable X : value -> value -> bool.
   Variable E : cexpr -> row -> bool.
-  Variable PA : list value -> bool.
+  Variable PA : parg -> bool.
 
   (* scalar comparisons *)
   Lemma eval_cmp_sound op fo v l t :
@@ -81,7 +81,8 @@ Section One.
   Proof.
     destruct e as [c op sv lv]. unfold compile, condition, of_fexpr; simpl.
     destruct op; simpl.
-    1-6: intros [= <-] r t; simpl; destruct (lookup c r) as [v|] eqn:L; [|discriminate];
+    1-6: unfold mk_cmp; destruct (PA (AVal sv)); [|discriminate];
+         intros [= <-] r t; simpl; destruct (lookup c r) as [v|] eqn:L; [|discriminate];
          rewrite (cell_lookup _ _ _ L); destruct (E _ r); [discriminate|]; intro Ev.
     - pose proof (eval_cmp_sound CEq EQ v sv t (or_introl eq_refl) Ev) as S. simpl in S. exact S.
     - pose proof (eval_cmp_sound CNe NE v sv t (or_intror (or_introl eq_refl)) Ev) as S. simpl in S. exact S.
@@ -95,7 +96,7 @@ Section One.
         apply is_empty_list_true in Em.
         destruct (is_null (cell r c)); [intuition discriminate|].
         rewrite (existsb_nil_not_none _ _ Em). intuition discriminate.
-      + unfold mk_is_in. destruct (PA (not_none lv)); simpl; [|discriminate].
+      + unfold mk_is_in. destruct (PA (AList (not_none lv))); simpl; [|discriminate].
         intros [= <-] r t; simpl. destruct (lookup c r) as [v|] eqn:L; [|discriminate].
         rewrite (cell_lookup _ _ _ L). destruct (E _ r); [discriminate|].
         intros [= <-]. rewrite tv_and_tt, !tv_of_tt. unfold eval_is_in.
@@ -109,7 +110,7 @@ Section One.
         apply is_empty_list_true in Em.
         destruct (is_null v); simpl; [intuition discriminate|].
         rewrite (existsb_nil_not_none _ _ Em). intuition.
-      + unfold mk_is_in. destruct (PA (not_none lv)); simpl; [|discriminate].
+      + unfold mk_is_in. destruct (PA (AList (not_none lv))); simpl; [|discriminate].
         intros [= <-] r t; simpl. destruct (lookup c r) as [v|] eqn:L; [|discriminate].
         rewrite (cell_lookup _ _ _ L). destruct (E _ r); [discriminate|]. simpl.
         intros [= <-]. rewrite tv_and_tt, tv_not_tt, tv_of_tt, tv_of_tf. unfold eval_is_in.
@@ -176,7 +177,7 @@ Proof. induction bs as [|b bs IH]; simpl; auto. destruct b; simpl; rewrite IH; r
 Section Conj.
   Variable X : value -> value -> bool.
   Variable E : cexpr -> row -> bool.
-  Variable PA : list value -> bool.
+  Variable PA : parg -> bool.
 
   Lemma fold_combine_eval r cs : forall c t,
     eval3 X E (fold_left gen_combine cs c) r = Some t ->
@@ -353,7 +354,7 @@ Proof. intro Hn. apply chunk_aux_concat; auto. Qed.
 Section Agree.
   Variable X : value -> value -> bool.
   Variable E : cexpr -> row -> bool.
-  Variable PA : list value -> bool.
+  Variable PA : parg -> bool.
   Variable sch : list Z.
   Variable ids : list (Z * Z).
   Variable bounds : file -> list (Z * value) * list (Z * value).
@@ -505,7 +506,7 @@ Proof. induction ls as [|l ls IH]; simpl; auto. rewrite filter_app, IH. reflexiv
 Section Spec.
   Variable X : value -> value -> bool.
   Variable E : cexpr -> row -> bool.
-  Variable PA : list value -> bool.
+  Variable PA : parg -> bool.
   Variable sch : list Z.
   Variable ids : list (Z * Z).
 
@@ -711,7 +712,7 @@ Proof. vm_compute. repeat split. Qed.
 Section Malformed.
   Variable X : value -> value -> bool.
   Variable E : cexpr -> row -> bool.
-  Variable PA : list value -> bool.
+  Variable PA : parg -> bool.
   Variable sch : list Z.
   Variable ids : list (Z * Z).
   Variable bounds : file -> list (Z * value) * list (Z * value).
@@ -771,30 +772,47 @@ Section ProjectAfter.
   Proof.
     destruct e as [c0 op sv lv]. unfold compile, condition, of_fexpr; simpl.
     destruct op; simpl;
+      try (unfold mk_cmp; destruct (PA (AVal sv)); [|discriminate]; intros [= <-] c; simpl; intuition);
       try (intros [= <-] c; simpl; intuition);
       (destruct (is_empty_list (not_none lv));
        [intros [= <-] c; simpl; intuition
-       |unfold mk_is_in; destruct (PA (not_none lv)); simpl; [|discriminate]; intros [= <-] c; simpl; intuition]).
+       |unfold mk_is_in; destruct (PA (AList (not_none lv))); simpl; [|discriminate]; intros [= <-] c; simpl; intuition]).
   Qed.
 End ProjectAfter.
 
 (* ------------------------------------------------------------------ summary lemmas used by Props/C12.v *)
-(* a well-shaped expression fails to compile only when pa.array refuses its (non-empty) value set *)
+(* the literal pyarrow has to accept when the expression of a well-shaped fexpr is built *)
+Definition literal_of (e : fexpr) : option parg :=
+  match fop_ e with
+  | IN | NOT_IN => match not_none (flval e) with [] => None | vs => Some (AList vs) end
+  | IS_NULL | IS_NOT_NULL => None
+  | _ => Some (AVal (fsval e))
+  end.
+
+(* a well-shaped expression fails to compile only when pyarrow refuses its literal (pa.scalar of the
+   comparison value, pa.array of the non-empty in / not_in value set) *)
 Lemma compile_err PA e k :
-  compile PA e = Err k ->
-  k = EBuild /\ (fop_ e = IN \/ fop_ e = NOT_IN) /\ not_none (flval e) <> [] /\ PA (not_none (flval e)) = false.
+  compile PA e = Err k -> k = EBuild /\ exists a, literal_of e = Some a /\ PA a = false.
 Proof.
-  destruct e as [c op sv lv]. unfold compile, condition, of_fexpr; simpl.
+  destruct e as [c op sv lv]. unfold compile, condition, of_fexpr, literal_of; simpl.
   destruct op; simpl; try discriminate;
+    try (unfold mk_cmp; destruct (PA (AVal sv)) eqn:P; [discriminate|]; intros [= <-]; split; eauto);
     (destruct (not_none lv) as [|w ws] eqn:NN; simpl; [discriminate|];
-     unfold mk_is_in; destruct (PA (w :: ws)) eqn:P; simpl; [discriminate|];
-     intros [= <-]; repeat split; auto; discriminate).
+     unfold mk_is_in; destruct (PA (AList (w :: ws))) eqn:P; simpl; [discriminate|];
+     intros [= <-]; split; eauto).
+Qed.
+
+Lemma compile_ok PA e :
+  (forall a, literal_of e = Some a -> PA a = true) -> exists ce, compile PA e = Ok ce.
+Proof.
+  intro H. destruct (compile PA e) as [ce|k] eqn:C; eauto.
+  apply compile_err in C. destruct C as [_ [a [L P]]]. rewrite (H a L) in P. discriminate.
 Qed.
 
 Section Summary.
   Variable X : value -> value -> bool.
   Variable E : cexpr -> row -> bool.
-  Variable PA : list value -> bool.
+  Variable PA : parg -> bool.
   Variable sch : list Z.
   Variable ids : list (Z * Z).
 
